@@ -1720,6 +1720,12 @@ func c04r7(c *core.Ctx) {
 // columnIndexProvenance explains why e is a column index, or returns "".
 func columnIndexProvenance(m *core.Model, f *core.Func, e ast.Expr) string {
 	e = m.StripConv(e)
+	// an accessor that merely names the lookup (a.columnOf(id) = a.componentsMap[id.id])
+	if call, ok := e.(*ast.CallExpr); ok {
+		if x := m.StripConv(m.Inline(call)); x != ast.Expr(call) {
+			e = x
+		}
+	}
 	switch x := e.(type) {
 	case *ast.Ident:
 		v, ok := m.Info.ObjectOf(x).(*types.Var)
